@@ -21,6 +21,11 @@ import (
 //     loads the flag), and Cache.Free changes both inside one c.mu.Lock section: a writer that
 //     finds the flag set then finds the ring (otherwise a concurrent first write goes into
 //     emptyStore and is acknowledged: cache_init_flag_first_refuted).
+//  c19_engine_free_excludes_writers: in package tsm1 every call of e.Cache.Free sits in
+//     Engine.freeCacheIfEmptyLocked inside `if e.Cache.Size() == 0`, and every call of that helper
+//     is made while e.mu.Lock is held (writers hold e.mu.RLock from the cache write to their
+//     return): a write acknowledged since the shard was found idle is seen, one in flight is
+//     waited for (otherwise: cache_free_unlocked_refuted).
 //  c01_snapshot_begin_one_section: tsm1 Engine.writeSnapshot closes the WAL segment, lists the
 //     closed segments and takes the cache snapshot inside ONE function literal that holds
 //     e.mu.Lock (step SnapBegin of Shard/Engine.v); a write acknowledged between the cache
@@ -123,6 +128,65 @@ func init() {
 		initSeq, freeSeq := cacheSeq("init"), cacheSeq("Free")
 		writeBool(b, "c19_cache_init_store_before_flag", initSeq == "lock;store;flag;unlock" &&
 			(freeSeq == "lock;store;flag;unlock" || freeSeq == "lock;flag;store;unlock"))
+
+		// Engine.Free / disableSnapshotCompactions: the cache store is released only by the
+		// guarded helper, and the helper is called only under the exclusive engine lock
+		freeOK, helperCalls := true, 0
+		for _, f := range t.files {
+			for _, dcl := range f.Decls {
+				fd, ok := dcl.(*ast.FuncDecl)
+				if !ok || fd.Body == nil {
+					continue
+				}
+				held := false
+				var guards []bool // per enclosing IfStmt: is it the size guard
+				var walk func(n ast.Node)
+				walk = func(n ast.Node) {
+					switch x := n.(type) {
+					case nil:
+						return
+					case *ast.DeferStmt:
+						return // a deferred unlock releases at return, after every statement
+					case *ast.IfStmt:
+						walk(x.Init)
+						guards = append(guards, c17ExprString(x.Cond) == "e.Cache.Size()==0")
+						walk(x.Body)
+						guards = guards[:len(guards)-1]
+						walk(x.Else)
+						return
+					case *ast.CallExpr:
+						switch c17ExprString(x.Fun) {
+						case "e.mu.Lock":
+							held = true
+						case "e.mu.Unlock":
+							held = false
+						case "e.freeCacheIfEmptyLocked":
+							helperCalls++
+							if !held {
+								freeOK = false
+							}
+						case "e.Cache.Free":
+							guarded := false
+							for _, g := range guards {
+								guarded = guarded || g
+							}
+							if fd.Name.Name != "freeCacheIfEmptyLocked" || !guarded {
+								freeOK = false
+							}
+						}
+					}
+					ast.Inspect(n, func(k ast.Node) bool {
+						if k == n || k == nil {
+							return true
+						}
+						walk(k)
+						return false
+					})
+				}
+				walk(fd.Body)
+			}
+		}
+		writeBool(b, "c19_engine_free_excludes_writers", freeOK && helperCalls >= 1)
 
 		wc := t.funcDecl("writeSnapshotAndCommit", "Engine")
 		var order []string
